@@ -78,7 +78,7 @@ class C03(Campaign):
     armed = {"seq.*": "C03.order", "barrier": "C03.no_interleave"}
     quick_runs = 2500
     thorough_runs = 40000
-    fault_kinds = ["nested-send@validators|before|exit|on|enter|after", "nested-send@initial-enter",
+    fault_kinds = ["nested-send@validators|before|exit|on|enter|after", "nested-send@initial-enter (constructor, first event, or explicit activate_initial_state())",
                    "fan-out (several sends per callback / per transition)", "self-triggering chain (<=5000)",
                    "async-callback-delay"]
     rule = ("one run = one generated machine in which 1-4 callbacks (any group, machine/model/listener, "
@@ -115,6 +115,12 @@ class C03(Campaign):
             return chain_scenario(rnd, n, rtc, is_async)
         sc = super().scenario(rnd, tier)
         prog = sc["programs"][0]
+        if any(m.get("async") for m in prog["cbs"].values()) and rnd.random() < 0.4:
+            # the deferred activation of an async machine requested explicitly: events sent by the initial
+            # state's enter callbacks are queued behind the activation like any nested event
+            sc["ops"].insert(1, {"op": "activate", "inst": "A"})
+            for g in sc["gv"].values():
+                g.append(g[-1])
         for c, m in sorted(prog["cbs"].items()):
             if m["group"] in ("before", "on") and rnd.random() < 0.6:
                 full = f"{prog['name']}/{c}"
